@@ -105,12 +105,16 @@ where
     if np != structural {
         return Verdict::viol("proof-size", format!("proof for {} coefficients ({} x {} matrix, codeword {}, t = {}) serializes {} elements ({} bytes); t columns + t paths + v + well-formedness is {}", big_n, n_rows, n_cols, n_ext, t, np, bytes, structural));
     }
-    // chosen shape against the best power-of-two row count. The property's own size model is not
-    // specified; under this capped-t model the pinned tree reaches 4.6x at 53..64 coefficients
-    // (t is capped by the codeword length there, which favours degenerate tall shapes), so the
-    // factor used here is 5.
-    if np > 5 * best {
-        return Verdict::viol("proof-shape", format!("proof for {} coefficients ({} x {} matrix, codeword {}) serializes {} elements ({} bytes); 5 x the best power-of-two shape is {}", big_n, n_rows, n_cols, n_ext, np, bytes, 5 * best));
+    // chosen shape against the best power-of-two row count: the property states this law (factor 4) for the regime
+    // in which the required number of column openings is below the codeword length. Where t is capped by the
+    // codeword length the model favours degenerate tall shapes (tiny codewords, hence tiny capped t) and the
+    // comparison says nothing about the scheme: only the structural law above applies there.
+    let uncapped = super::c13::exact_t(sec, distance, n_ext as u128, 60000).unwrap_or(usize::MAX);
+    if uncapped < n_ext && np > 4 * best {
+        return Verdict::viol("proof-shape", format!("proof for {} coefficients ({} x {} matrix, codeword {}, t = {} uncapped) serializes {} elements ({} bytes); 4 x the best power-of-two shape is {}", big_n, n_rows, n_cols, n_ext, t, np, bytes, 4 * best));
+    }
+    if std::env::var("SYMPC_SHAPE").is_ok() {
+        eprintln!("SHAPE N={} {}x{} ext={} t_uncapped={} np={} best={} ratio={:.2} in_regime={}", big_n, n_rows, n_cols, n_ext, uncapped, np, best, np as f64 / best as f64, uncapped < n_ext);
     }
     Verdict::Hold
 }
